@@ -1,0 +1,5 @@
+//go:build !verif
+
+package cmd
+
+func verifDraw(site string, n int, v int) {}
